@@ -1,5 +1,6 @@
 use crate::util::{Ctx, Report};
 
+pub mod c01;
 pub mod c02;
 pub mod c03;
 pub mod c05;
@@ -15,6 +16,8 @@ pub mod c16;
 
 pub fn run(id: &str, ctx: &Ctx) -> Report {
     match id {
+        "C01" => c01::run(ctx),
+        "C11" => c01::run_c11(ctx),
         "C02" => c02::run(ctx),
         "C03" => c03::run(ctx),
         "C04" => c03::run_c04(ctx),
